@@ -918,6 +918,13 @@ class Engine:
                         res.append((s2, Raised(VExc('ZeroDivisionError'))))
                     else:
                         cb = concrete_int(VInt(ib))
+                        if (cb is None or cb < 0) and getattr(self.spec, 'python_mod', False) \
+                                and isinstance(op, ast.Mod):
+                            # opt-in (sidecar): exact Python floor modulo for a divisor of unknown sign, from z3's
+                            # Euclidean mod r (0 <= r < |b|): b > 0 -> r;  b < 0 -> 0 if r == 0 else r + b
+                            r = ia % ib
+                            res.append((s2, VInt(z3.If(ib > 0, r, z3.If(r == 0, 0, r + ib)))))
+                            continue
                         if cb is None or cb < 0:
                             # z3 div/mod agree with Python floor semantics only for positive divisors
                             self.oblige(s2, 'bounds-positive-divisor', ib > 0, node)
@@ -934,12 +941,27 @@ class Engine:
                     return [(s, VInt(((ia / cb) % 2) * cb))]
                 if ca is not None and cb is not None:
                     return [(s, VInt(ca & cb))]
+                # exact for Python ints (two's complement, unbounded): bit b of x is floor(x / 2^b) mod 2, so for a
+                # constant mask  x & C = sum over the bits b of C of bit_b(x) * 2^b  (C >= 0)  and
+                # x & ~M = x - (x & M)  (C = ~M < 0); small masks only (the term has one summand per bit)
+                for cz, xz in ((cb, ia), (ca, ib)):
+                    if cz is not None and -2 ** 64 <= cz < 2 ** 64:
+                        m = cz if cz >= 0 else -cz - 1
+                        if bin(m).count('1') <= 40:
+                            t = z3.Sum([((xz / (1 << b)) % 2) * (1 << b) for b in range(m.bit_length()) if m >> b & 1]) \
+                                if m else z3.IntVal(0)
+                            return [(s, VInt(t if cz >= 0 else xz - t))]
                 f = z3.Function('bitand', IntS, IntS, IntS)
                 return [(s, VInt(f(ia, ib)))]
             if isinstance(op, ast.BitOr):
                 ca, cb = concrete_int(VInt(ia)), concrete_int(VInt(ib))
                 if ca is not None and cb is not None:
                     return [(s, VInt(ca | cb))]
+                # exact: x | C = x + sum over the bits b of C of (1 - bit_b(x)) * 2^b   (constant C >= 0)
+                for cz, xz in ((cb, ia), (ca, ib)):
+                    if cz is not None and 0 <= cz < 2 ** 64 and bin(cz).count('1') <= 40:
+                        add = [(1 - (xz / (1 << b)) % 2) * (1 << b) for b in range(cz.bit_length()) if cz >> b & 1]
+                        return [(s, VInt(xz + z3.Sum(add) if add else xz))]
                 f = z3.Function('bitor', IntS, IntS, IntS)
                 return [(s, VInt(f(ia, ib)))]
             if isinstance(op, ast.LShift):
@@ -1993,6 +2015,7 @@ class Engine:
                             val = VSeq(val.z, val.elem)
                         if getattr(self.spec, 'alias_map_lists', False):
                             # d[k] = <new list> rebinds the entry: live aliases of the old list are detached
+                            s3.heap['__list_slot_rebound__'] = True      # (contracts may forbid rebinding)
                             for nm_, v_ in list(s3.env.items()):
                                 og = getattr(v_, 'origin', None)
                                 if getattr(og, 'reload', None) is not None:
